@@ -85,10 +85,18 @@ def _healpix(key):
     _, nside = key
     bad = []
     theta, phi = _interior_directions(nside)
-    for stokes in ('I', 'IQU'):
-        ls = HealpixLandscape(nside, stokes)
+    # the looked-up index is a function of the direction only: landscapes whose MAP VALUES are narrower (float32, float16) get the same
+    # float64 directions and must return the same pixels
+    for stokes, mdt in (('I', None), ('IQU', None), ('IQU', np.float32), ('QU', np.float16)):
+        ls = HealpixLandscape(nside, stokes) if mdt is None else HealpixLandscape(nside, stokes, mdt)
         if len(ls) != 12 * nside * nside or tuple(ls.shape) != (12 * nside * nside,):
             bad.append(f'len/shape {len(ls)}/{ls.shape} for nside {nside}')
+        if mdt is not None:
+            # directions much closer to the pixel borders (centres of the 64x finer map, 20 000 of them): still strictly interior in
+            # float64 (margin ~ 1/128 of a pixel), but any rounding of the angles to the map dtype crosses a border
+            fine = 64 * nside
+            sel = np.random.default_rng(nside).choice(12 * fine * fine, size=min(20000, 12 * fine * fine), replace=False)
+            theta, phi = (np.asarray(a, np.float64) for a in hp.pix2ang(fine, np.sort(sel)))
         for shift in (0.0, 2 * np.pi, -2 * np.pi):
             want = hp.ang2pix(nside, theta, phi)
             got = np.asarray(ls.world2index(jnp.asarray(theta), jnp.asarray(phi + shift)))
